@@ -63,7 +63,9 @@ func (cache *CacheLFU) GetCount(key string) (int, error) {
 
 func (cache *CacheLFU) Flush() {
 	clear(cache.keys)
+	// clear() on a slice only zeroes its elements; drop them so the heap is really empty.
 	clear(cache.entries)
+	cache.entries = cache.entries[:0]
 }
 
 func (cache *CacheLFU) Len() int {
